@@ -21,6 +21,7 @@ package chancloser
 // yields a transaction.
 
 import (
+	"errors"
 	"bytes"
 	"fmt"
 	"io"
@@ -604,6 +605,21 @@ func (x *verifC17RbfRun) onError(k int, ev ProtocolEvent, err error, built bool)
 					verifC17RbfTxBytes(ex.propTx), verifC17RbfTxBytes(mine)))
 			return
 		}
+		// The closee refused before building anything. When the reason
+		// is that it expects a signature over a transaction with other
+		// outputs than the one the honest closer signed (which output is
+		// dust), the two sides do not build the same transaction.
+		if errors.Is(err, ErrCloserNoClosee) || errors.Is(err, ErrCloserAndClosee) {
+			x.vc.Count("oracle_identical_tx", 1)
+			which := "expects-closer-only"
+			if errors.Is(err, ErrCloserAndClosee) {
+				which = "expects-both-outputs"
+			}
+			x.viol("coop_identical_tx", "rbf:closee-"+which,
+				fmt.Sprintf("closee %d refuses the honest closer's closing_complete fee %d because it expects a transaction with other outputs (type %s opener %d owned %v raw %v dust %v scripts %x / %x): %v",
+					k, t.SigMsg.FeeSatoshis, x.p.TypeName, x.oi, x.owned, x.raw, x.dust, x.scripts[0], x.scripts[1], err))
+			return
+		}
 		x.vc.Diag("rbf_offer_refused", fmt.Sprintf("closee %d refuses closing_complete fee %d (type %s opener %d owned %v raw %v dust %v): %v",
 			k, t.SigMsg.FeeSatoshis, x.p.TypeName, x.oi, x.owned, x.raw, x.dust, err))
 	case *SendOfferEvent:
@@ -707,7 +723,15 @@ func verifC17RbfCase(vc *lnwallet.VerifCtx, i int) {
 			nActions = 2 + r.Intn(8)
 		}
 	}
-	vc.Case(i, map[string]any{"params": p, "actions": nActions})
+	// shaping cases (a quarter): the non-opener starts with nothing, every
+	// HTLC of the schedule is failed, then its balance is lifted to a chosen
+	// dust boundary (below).
+	shape := i%4 == 1
+	if shape {
+		p.PushPct = 0
+		nActions = 2 + r.Intn(20)
+	}
+	vc.Case(i, map[string]any{"params": p, "actions": nActions, "shape": shape})
 	e, err := lnwallet.VerifE1New(vc, r, p)
 	if err != nil {
 		vc.Count("setup_skipped", 1)
@@ -717,6 +741,7 @@ func verifC17RbfCase(vc *lnwallet.VerifCtx, i int) {
 	defer e.Close()
 	defer vc.CaseDone(i)
 	e.SetNoPendingFate(true)
+	e.SetFailOnlyFate(shape)
 	e.SetOracles(map[string]bool{"tx_exact": false})
 	for a := 0; a < nActions && !e.Ended(); a++ {
 		e.Step(true)
@@ -731,6 +756,32 @@ func verifC17RbfCase(vc *lnwallet.VerifCtx, i int) {
 			vc.Count("constraint_terminated", 1)
 		}
 		return
+	}
+	// delivery scripts first: the RBF flow judges dust by the script's
+	// dust threshold, so the balance shaping below needs them.
+	scripts := [2][]byte{verifC17RbfScript(r), verifC17RbfScript(r)}
+	if r.Chance(1, 8) {
+		scripts[1] = scripts[0]
+	}
+	// balance shaping (shaping cases): lift the non-opener's balance
+	// to a dust threshold -1/0/+1 sat (channel dust limits, the dust value
+	// of its delivery script and of the peer's), any sub-satoshi remainder.
+	if shape {
+		dA, dB := e.DustLimits()
+		t := 1 - e.OpenerIdx()
+		thr := []int64{dA, dB, int64(lnwallet.DustLimitForSize(len(scripts[t]))),
+			int64(lnwallet.DustLimitForSize(len(scripts[1-t])))}
+		T := thr[r.Intn(len(thr))] + int64(r.Intn(3)) - 1
+		rem := []uint64{0, 0, 1, 999, uint64(r.Intn(1000))}[r.Intn(5)]
+		if T >= 1 && e.ShapeNonOpener(uint64(T)*1000+rem) {
+			vc.Count("shaped_nonopener_balance", 1)
+		}
+		if e.Ended() {
+			if e.ConstraintTerminated() {
+				vc.Count("constraint_terminated", 1)
+			}
+			return
+		}
 	}
 	chans := [2]*lnwallet.LightningChannel{e.Channel(0), e.Channel(1)}
 	st := [2]*channeldb.OpenChannel{chans[0].State(), chans[1].State()}
@@ -760,10 +811,7 @@ func verifC17RbfCase(vc *lnwallet.VerifCtx, i int) {
 	if err != nil {
 		panic(fmt.Sprintf("funding script: %v", err))
 	}
-	x.scripts = [2][]byte{verifC17RbfScript(r), verifC17RbfScript(r)}
-	if r.Chance(1, 8) {
-		x.scripts[1] = x.scripts[0]
-	}
+	x.scripts = scripts
 
 	// environment of each party, as peer/brontide.go initRbfChanCloser
 	// builds it (BlockHeight stays zero there; the msg mapper reports the
